@@ -224,7 +224,10 @@ class Constant(Program):
         return (
             isinstance(other, Constant)
             and self.type == other.type
+            and self._has_value == other._has_value
             and self.value == other.value
+            # the hash is taken on str(value): 1, 1.0 and True are different constants
+            and str(self.value) == str(other.value)
         )
 
     def __pickle__(o: Program) -> Tuple:  # type: ignore[override]
